@@ -304,9 +304,18 @@ func (e *Engine) Exec(tx Tx) *Report {
 	case DontCare:
 		rc.Cov.DontCare++
 		rep.Adopted = true
+		rc.Cov.Cell("dontcare_reasons", rep.Exp[len(rep.Exp)-1].Kind+":"+rep.Exp[len(rep.Exp)-1].DCNote)
 	}
 
 	if !rep.OK {
+		for _, d := range fallible {
+			if d.Method == "Burn" && d.Err == "" {
+				rc.Cov.Cell("late_failures", "deposit-failed-after-burn")
+			}
+			if d.Method == "Mint" && d.Err == "" {
+				rc.Cov.Cell("late_failures", "receive-failed-after-mint")
+			}
+		}
 		// ---- failed => nothing changed, no module events
 		rc.Cov.Assert("failed-tx.no-state-change")
 		if !e.NoDumpCheck && rep.PreHash != rep.PostHash {
